@@ -5,12 +5,12 @@ CONSTS = {"CertKeys": '{"k1","k2","k3"}'}
 GEN_CFGS = {}
 
 
-def G(tag, classes, depth, num, props, nidl=False, base=True, sw=False, regw=False):
+def G(tag, classes, depth, num, props, nidl=False, base=True, sw=False, regw=False, unix=False):
     name = "HandshakeGen_%s.cfg" % tag
     GEN_CFGS[name] = ("SPECIFICATION Spec\nCONSTANTS\n  CertKeys = {\"k1\",\"k2\",\"k3\"}\n  Depth = %d\n  Classes = {%s}\n  CfgNidl = %s\n  CfgBase = %s\nCHECK_DEADLOCK FALSE\n"
                       % (depth, ",".join('"%s"' % c for c in classes), "TRUE" if nidl else "FALSE", "TRUE" if base else "FALSE"))
     return dict(module="HandshakeGen.tla", cfg=name, depth=depth, num=num, props=props, tag=tag,
-                beh_cfg=dict(nidl=nidl, base=base, sw=sw, regw=regw, certKeys=["k1", "k2", "k3"]))
+                beh_cfg=dict(nidl=nidl, base=base, sw=sw, regw=regw, unix=unix, lifeSec=0, certKeys=["k1", "k2", "k3"]))
 
 
 def materialise(scr):
@@ -26,6 +26,10 @@ GENS = [
       dict(quick=25, thorough=500), ["C02"], nidl=False, sw=True),
     G("c02c", ["Enroll", "Remove", "ConnectNear", "ConnectOther"], 8,
       dict(quick=10, thorough=200), ["C02"], nidl=False, base=False),
+    G("c07a", ["NewNode", "DialPending", "AuthorizePending", "DialPending", "Enroll", "Rogue", "Rogue", "Dial", "Remove"], 10,
+      dict(quick=30, thorough=500), ["C07"]),
+    G("c07b", ["NewNode", "DialPending", "AuthorizePending", "Enroll", "Rogue", "Dial"], 9,
+      dict(quick=15, thorough=300), ["C07"], sw=True, unix=True),
     G("c16a", ["Enroll", "Dial", "Dial", "ConnectHonest", "Remove"], 9, dict(quick=40, thorough=600), ["C16"]),
     G("c16b", ["Enroll", "Dial", "ConnectHonest", "ConnectNear"], 9, dict(quick=20, thorough=400), ["C16"], nidl=True, sw=True),
     G("c14a", ["Enroll", "Malformed", "Malformed", "Malformed", "Dial"], 12, dict(quick=40, thorough=700), ["C14"]),
@@ -39,6 +43,8 @@ def nontrivial(prop, l):
         return op in ("Connect", "Dial")
     if prop == "C14":
         return op in ("Malformed", "Dial")
+    if prop == "C07":
+        return op in ("Rogue", "Dial")
     return l["res"] == "auth"
 
 
@@ -46,6 +52,7 @@ def family_for(prop):
     return dict(
         driver="hsd", trace_module="HandshakeTrace.tla", trace_consts=CONSTS, level="model_checking",
         fixed="fixed/hs.ndjson", nontrivial=nontrivial, materialise=materialise,
+        confirm_attempts=4,   # real sockets and (for the rotation histories) map-iteration order: re-run a failing behaviour up to 4 times
         mc=dict(quick=[("MC_Handshake.tla", "MC_Handshake_q.cfg"), ("MC_Handshake.tla", "MC_Handshake_nonid_q.cfg")],
                 thorough=[("MC_Handshake.tla", "MC_Handshake.cfg"), ("MC_Handshake.tla", "MC_Handshake_nonid.cfg")]),
         witness=dict(quick=[("MC_Handshake.tla", "MC_Handshake_w.cfg", "NeverAuth")], thorough=[("MC_Handshake.tla", "MC_Handshake_w.cfg", "NeverAuth")]),
@@ -53,6 +60,7 @@ def family_for(prop):
         rule={
             "C02": "TLC-generated histories of enrol / remove / reinitialise-roots interleaved with adversarial clients drawn from the capability product (random, honest, and honest-with-one-capability-changed) executed as real crypto/tls clients against a real InterceptingListener on loopback; non-trivial = Connect/Dial lines; distinct = distinct (client record, result)",
             "C14": "TLC-chosen malformed-input classes x library prefix, concretised with seeded random content (ALPN lists, raw bytes, drops at several handshake stages), each followed later in the behaviour by honest dials; with and without an application registration wrapper",
+            "C07": "TLC-generated histories of new-node / dial-before-authorisation / authorise / dial and dials against eight kinds of rogue server (foreign roots, certificate minted for another nonce, nonce omitted, wrong extended key usage, self-signed, not-yet-valid next root, foreign with no / an application ALPN selected), over tcp and unix sockets, with storage wrappers, extra ALPN and client state; fixed real-time histories (8 s root lifetime) in which the server rotates its roots once the node's second chain is valid and the node dials repeatedly",
             "C16": "honest protocol.Dial with TLC-chosen extra-ALPN class and client-state class; the offered list is parsed by the harness from the raw ClientHello bytes and compared with what the connection reports",
         },
         assumptions=[
